@@ -594,13 +594,15 @@ func hashAlgFor(devicePubKey, ownerPubKey crypto.PublicKey) (protocol.HashAlg, e
 	if err != nil {
 		return 0, fmt.Errorf("owner attestation key: %w", err)
 	}
-	switch min(deviceSize, ownerSize) {
+	switch size := min(deviceSize, ownerSize); size {
 	case 256:
 		return protocol.Sha256Hash, nil
 	case 384:
 		return protocol.Sha384Hash, nil
 	default:
-		panic("only hash sizes of 256 and 384 are included in FDO")
+		// Keys arrive in CSRs, voucher headers and TO2.SetupDevice; an RSA
+		// key of a size FDO does not define must not take the process down
+		return 0, fmt.Errorf("unsupported key size: only hash sizes of 256 and 384 are included in FDO, got %d", size)
 	}
 }
 
